@@ -26,13 +26,15 @@ class PairSystem(System):
     name = "pair"
     serves = ("C12", "C13", "C14")
     rule = (
-        "state = (A, B): two structures of the same class, geometry and hash strategy, each built by its own stream; "
-        "events A.add / B.add (counting Bloom and count-min also with amounts 1..2 and legitimate removes); all "
-        "event sequences to the depth bound, i.e. all pairs of reachable operand states up to that many operations "
-        "in total; at every pair state union/intersection/jaccard/join are evaluated in both orders (plain Bloom: "
-        "also with either operand re-opened as BloomFilterOnDisk) and compared cell-for-cell with one structure fed "
-        "stream(A) then stream(B); incompatible (other geometry, other hash) and foreign operands are tried at every "
-        "state; non-trivial = pair in which both operands are non-empty and share at least one set cell."
+        'state = (A, B): two structures of the same class, geometry and hash strategy, each built by its own stream; '
+        'events A.add / B.add (counting Bloom and count-min also with amounts 1..2 and removes; two count-min configurations '
+        'with unrestricted removes); all event sequences to the depth bound, i.e. all pairs of reachable operand states up to '
+        'that many operations in total; at every pair state union/intersection/jaccard/join are evaluated in both orders (plain '
+        'Bloom: also with either operand re-opened as BloomFilterOnDisk and with operands that are themselves union results) and '
+        'compared cell-for-cell with one structure fed stream(A) then stream(B); incompatible operands (other size, same bytes '
+        'other bits, other hash, hash agreeing on the first value only, same number of counters other shape), foreign operands '
+        'and a refused join before a valid one are tried at every state; non-trivial = pair in which both operands are '
+        'non-empty and share at least one set cell.'
     )
 
     def configs(self, prop, tier, seed):
